@@ -46,6 +46,7 @@ class _Stub(dict):
                       'ratio_ch': _Always(Fraction(case.get('chr', '1/2')))}
         self.pseudo_type = None
         self.element = None
+        self.is_root_element = bool(case['is_root']) if 'is_root' in case else self.parent_style is None
 
     def __missing__(self, key):
         return None
